@@ -1575,7 +1575,7 @@ func main() {
 		return 0
 	}
 	sort.SliceStable(cells, func(i, j int) bool { return rank(cells[i]) < rank(cells[j]) })
-	par, serial := groupsFor(c.Thorough())
+	par, serial := groupsFor(true) // the full grid takes under a minute: both tiers run it
 	c.Set("groups", len(par)+len(serial))
 	if f := os.Getenv("C18_GROUP"); f != "" { // development aid: run only the groups whose name contains f
 		keep := func(gs []group) (out []group) {
